@@ -61,3 +61,37 @@ pub async fn settle(mut probe: impl FnMut() -> usize, stable: usize) {
         rounds += 1;
     }
 }
+
+/// A shred network that records every send (destination socket addresses); never receives.
+#[derive(Default)]
+pub struct RecShredNet {
+    pub sent: Mutex<Vec<std::net::SocketAddr>>,
+}
+
+impl RecShredNet {
+    pub fn take(&self) -> Vec<std::net::SocketAddr> {
+        std::mem::take(&mut *self.sent.lock().unwrap())
+    }
+}
+
+impl alpenglow::network::Network for RecShredNet {
+    type Send = alpenglow::shredder::Shred;
+    type Recv = alpenglow::shredder::Shred;
+
+    async fn send(&self, _message: &Self::Send, addr: std::net::SocketAddr) -> std::io::Result<()> {
+        self.sent.lock().unwrap().push(addr);
+        Ok(())
+    }
+
+    async fn send_to_many(&self, _message: &Self::Send, addrs: impl IntoIterator<Item = std::net::SocketAddr> + Send) -> std::io::Result<()> {
+        let mut g = self.sent.lock().unwrap();
+        for a in addrs {
+            g.push(a);
+        }
+        Ok(())
+    }
+
+    async fn receive(&self) -> std::io::Result<Self::Recv> {
+        std::future::pending().await
+    }
+}
